@@ -39,7 +39,8 @@ RULE = ('cases = (kind, mode, package, sources, permutation | constant | history
         'non-alphabetical order, remove_resolved on / off in the distance-dependent mode; thorough enumerates every permutation '
         'of 2..4 filters and of 2..4 models in both modes; non-trivial = the permutation is not the identity / c != 1 / the '
         'history has a repeated or interleaved source; distinct = canonical hash of the generated inputs')
-REQUIRED_BRANCHES = ['fitter_positional', 'fitter_keywords', 'distance_range_kpc', 'distance_range_pc', 'extinction_direct',
+REQUIRED_BRANCHES = ['per_file_flux_units', 'first_filter_unit_differs_between_orders', 'integer_arrays_bright_end',
+                     'fitter_positional', 'fitter_keywords', 'distance_range_kpc', 'distance_range_pc', 'extinction_direct',
                      'extinction_deepcopy', 'extinction_pickle', 'extinction_copy', 'history_after_refused_call',
                      'rep_route_copy', 'rep_route_deepcopy', 'rep_route_pickle', 'rep_route_dict',
                      'rep_float64', 'rep_int64', 'rep_int32', 'rep_list_int', 'rep_bigendian_int32', 'rep_bigendian', 'rep_readonly',
@@ -153,7 +154,7 @@ def gen_sources(rng, pkg, n):
 
 def gen_case(rng, kind, mode, perm=None, nb=None, nm=None, c=None, interior=False, fmt=None, memmap=None,
              resolved=None, difftab=None, zero=None, spec_override=None, rep='random', twin=None, masked_interleave=None,
-             call=None):
+             call=None, units=None):
     perm_given = perm is not None
     nb = nb or rng.randint(2, 6)
     nm = nm or rng.randint(2 if kind == 'model_perm' else 1, 8)
@@ -259,6 +260,12 @@ def gen_case(rng, kind, mode, perm=None, nb=None, nm=None, c=None, interior=Fals
     # package format / storage / resolved-model removal / model names: drawn last, so that the streams above are unchanged
     fmt = fmt or rng.choice(['files', 'files', 'cube_wav', 'cube_named', 'cube_mixed'])
     case['fmt'] = fmt
+    if units is None:
+        units = (fmt == 'files' and kind in ('filter_perm', 'history', 'interleaved') and rng.random() < 0.4)
+    if units and fmt == 'files':
+        # per-file packages whose convolved files are not all in the same flux unit (physically the same package)
+        jq = 0 if (kind != 'filter_perm' or case['perm'][0] != 0) else rng.randrange(nb)
+        case['units'] = {str(jq): rng.choice(['Jy', 'Jy', 'uJy'])}
     case['memmap'] = bool(memmap) if memmap is not None else (fmt != 'files' and rng.random() < 0.4)
     case['resolved'] = bool(resolved) if resolved is not None else (mode == 'dist' and rng.random() < 0.4)
     if fmt == 'cube_mixed':
@@ -362,7 +369,13 @@ def gen_cases(seed, tier):
         apply_rep(case, DIRECTED_REPS[i % len(DIRECTED_REPS)], rng)
         case['call'] = dict(DIRECTED_CALLS[i % len(DIRECTED_CALLS)])
         if kind == 'scale' and case['rep'] in c03.INT_REPS:
-            case['c'] = 100. if case['c'] > 1 else case['c']
+            case['c'] = (1e8 if case['rep'] in ('int64', 'list_int') else 1e4) if case['c'] > 1 else case['c']
+            # a bright whole-number source without a flag-4 band: c * array stays an integer array at the bright end
+            b = c03.integerised(gen_source(rng, case, flags=[1, 1, 3, 0, 1]))
+            b['flux'] = [x * 100. if f in (1, 2, 3) else x for f, x in zip(b['flags'], b['flux'])]
+            b['err'] = [x * 100. if f == 1 else x for f, x in zip(b['flags'], b['err'])]
+            case['sources'].append(b)
+            case['ign'].append([[-999., -999.] for _ in b['flags']])
         yield case
         i += 1
     if tier == 'thorough':
@@ -381,7 +394,9 @@ def gen_cases(seed, tier):
     both_on = [dict(fmt='cube_wav', memmap=True, scale=1., reverse=False), dict(fmt='cube_named', memmap=True, scale=7.3, reverse=True)]
     mixed = [dict(fmt='cube_mixed', memmap=True, scale=1., reverse=False), dict(fmt='cube_wav', memmap=False, scale=0.21, reverse=True),
              dict(fmt='files', memmap=False, scale=3.9, reverse=False)]
-    for kind, mode, extra in (('filter_perm', 'dist', dict(twin='exact', nb=4, nm=3)), ('filter_perm', 'dist', dict(twin='near', nb=3, nm=3)),
+    for kind, mode, extra in (('filter_perm', 'indep', dict(units=True, fmt='files', nb=4, nm=3)),
+                              ('filter_perm', 'dist', dict(units=True, fmt='files', nb=3, nm=2)),
+                              ('filter_perm', 'dist', dict(twin='exact', nb=4, nm=3)), ('filter_perm', 'dist', dict(twin='near', nb=3, nm=3)),
                               ('filter_perm', 'dist', dict(twin='near', nb=5, nm=2)),
                               ('interleaved', 'dist', dict(masked_interleave=True)), ('interleaved', 'dist', dict(masked_interleave=True)),
                               ('interleaved', 'indep', dict(spec_override=both_on)), ('interleaved', 'dist', dict(spec_override=both_on)),
@@ -454,9 +469,13 @@ def write_package(case, d, mode, row_order=None):
                               apertures_au=(case['aps'] if dist else None), aperture_dependent=dist,
                               logd_step=case['step'])
     for j in sorted(named_filters(case)):
+        from astropy import units as u
         apj = aps_of(j) if dist else None
-        pk.write_convolved(d, 'F%d' % j, case['wavs'][j], [names[i] for i in order], [flux_of(i, j) for i in order],
-                           np.zeros((nm, len(apj) if dist else 1)), apertures_au=apj)
+        unit_j = (case.get('units') or {}).get(str(j), 'mJy')
+        fac = {'mJy': 1., 'Jy': 1e-3, 'uJy': 1e3}[unit_j]
+        pk.write_convolved(d, 'F%d' % j, case['wavs'][j], [names[i] for i in order],
+                           [[x * fac for x in flux_of(i, j)] for i in order],
+                           np.zeros((nm, len(apj) if dist else 1)), apertures_au=apj, unit=u.Unit(unit_j))
 
 
 def make_ext(case):
@@ -511,7 +530,8 @@ def rep_for(s, rep):
     """the representation to hold `s` in: an integer container only if every value is a whole number"""
     if rep in c03.INT_REPS:
         vals = list(s['flux']) + list(s['err'])
-        if not all(math.isfinite(v) and float(v) == int(v) and abs(v) < 2 ** 31 for v in vals):
+        top = 2 ** 31 if rep in ('int32', 'bigendian_int32') else 2 ** 62
+        if not all(math.isfinite(v) and float(v) == int(v) and abs(v) < top for v in vals):
             return None
     return rep
 
@@ -526,8 +546,11 @@ def apply_rep(case, rep, rng):
     case['rep'] = rep
     if rep in c03.INT_REPS:
         case['sources'] = [c03.integerised(s) for s in case['sources']]
-        if case['kind'] == 'scale' and rng.random() < 0.6:
-            case['c'] = float(rng.choice([2, 3, 10, 100, 1000]))
+        if case['kind'] == 'scale' and rng.random() < 0.7:
+            # whole-number constants up to the bright end of the 8 decades: c * array stays an integer array, with values
+            # beyond 46341 (int32) / 3.04e9 (int64), where a squared intermediate held in the array's own dtype would wrap
+            big = [10 ** 7, 10 ** 8, 3 * 10 ** 7] if rep in ('int64', 'list_int') else [100, 1000, 10 ** 4]
+            case['c'] = float(rng.choice([2, 3, 10, 100, 1000] + big + big))
     return case
 
 
@@ -692,6 +715,12 @@ def run_filter_perm(case, use_model, branches, stats, dirs):
     write_package(case, d, mode)
     if interior_only(perm):
         branches.add('filter_perm_interior')
+    if case.get('units'):
+        branches.add('per_file_flux_units')
+        first_a = (case['units'] or {}).get('0', 'mJy')
+        first_b = (case['units'] or {}).get(str(perm[0]), 'mJy')
+        if first_a != first_b:
+            branches.add('first_filter_unit_differs_between_orders')
     if case.get('twin_of') and mode == 'dist':
         for j2_, j1_ in case['twin_of'].items():
             j2_ = int(j2_)
@@ -1063,6 +1092,10 @@ def run_case(case, use_model=True):
     branches.add('rep_%s' % (case.get('rep') or 'float64'))
     if case['kind'] == 'scale' and case.get('rep') in c03.INT_REPS and float(case['c']) == int(case['c']):
         branches.add('scale_integer_constant_integer_arrays')
+        top = 46341 if case['rep'] in ('int32', 'bigendian_int32') else 3.04e9
+        for s_ in case['sources']:
+            if 4 not in s_['flags'] and any(f == 1 and x * case['c'] >= top for f, x in zip(s_['flags'], s_['flux'])):
+                branches.add('integer_arrays_bright_end')
     try:
         r = RUNNERS[case['kind']](case, use_model, branches, stats, dirs)
         key = common.canon_hash(case)
